@@ -759,7 +759,8 @@ fn wl_mpmc_inner<TX: TxOps, RX: RxOps>(
                     let mut seq = 0u64;
                     while (seq as usize) < per_producer && !run.abort.load(Relaxed) {
                         let tag = ((i as u64) << 32) | seq;
-                        if cap > 0 && rng.below(4) == 0 {
+                        // every fourth run is heavy on try_send (producers racing for the last free slot)
+                        if cap > 0 && (rng.below(4) == 0 || (seed % 4 == 0 && rng.below(3) != 0)) {
                             let ok = log!(lg, run, i, 0u8, tag, {
                                 match tx.try_send(tag) {
                                     Ok(()) => (true, 1),
@@ -1067,6 +1068,250 @@ pub fn drive_pinned<F: Future>(run: &Arc<Run>, i: usize, mut fut: Pin<&mut F>, h
         }
     }
     drive(run, i, Wrap(fut.as_mut()), how, waiting_for)
+}
+
+// ------------------------------------------------------------------ event, linearizability of short histories (C14)
+/// One point of an operation in the linearization search: it must be placed inside [lo, hi] (stamps).
+#[derive(Clone, Copy, Debug)]
+struct LinEv {
+    lo: u64,
+    hi: u64,
+    /// 0 set, 1 reset, 2 is_set -> arg, 3 single poll of a fresh wait future -> arg (1 = Ready),
+    /// 4 open of a blocking wait (its first poll returned Pending), 5 close of that wait (it completed)
+    kind: u8,
+    arg: u64,
+    /// index of the blocking wait (kinds 4, 5)
+    w: u8,
+}
+
+/// Is there an order of the points, each inside its window and respecting "a before b if a.hi < b.lo", under
+/// which a sequential manual reset event gives the observed results? State: is_set, and per open blocking wait
+/// whether the event has been set at some instant since it was opened (the latch).
+fn event_history_linearizable(evs: &[LinEv], initial: bool) -> bool {
+    let n = evs.len();
+    if n > 20 {
+        return true; // not searched (never produced by the workload)
+    }
+    let mut seen: HashSet<(u32, bool, u32)> = HashSet::new();
+    // (chosen mask, state, latched mask)
+    let mut stack: Vec<(u32, bool, u32)> = vec![(0, initial, 0)];
+    let full = (1u32 << n) - 1;
+    while let Some((mask, s, latched)) = stack.pop() {
+        if mask == full {
+            return true;
+        }
+        if !seen.insert((mask, s, latched)) {
+            continue;
+        }
+        // the smallest upper bound among the unchosen points: nothing whose window starts after it may come first
+        let min_hi = (0..n).filter(|i| mask & (1 << i) == 0).map(|i| evs[i].hi).min().unwrap();
+        for i in 0..n {
+            if mask & (1 << i) != 0 || evs[i].lo > min_hi {
+                continue;
+            }
+            let e = evs[i];
+            // the close of a wait comes after its open
+            if e.kind == 5 {
+                let open_chosen = (0..n).any(|j| evs[j].kind == 4 && evs[j].w == e.w && mask & (1 << j) != 0);
+                if !open_chosen {
+                    continue;
+                }
+            }
+            let (mut s2, mut l2) = (s, latched);
+            let ok = match e.kind {
+                0 => {
+                    s2 = true;
+                    // every wait that is open right now is latched
+                    for j in 0..n {
+                        if evs[j].kind == 4 && mask & (1 << j) != 0 {
+                            l2 |= 1 << evs[j].w;
+                        }
+                    }
+                    true
+                }
+                1 => {
+                    s2 = false;
+                    true
+                }
+                2 | 3 => (e.arg == 1) == s,
+                4 => {
+                    // the first poll returned Pending: the event was not set at that instant
+                    if s {
+                        false
+                    } else {
+                        l2 &= !(1 << e.w);
+                        true
+                    }
+                }
+                _ => latched & (1 << e.w) != 0,
+            };
+            if ok {
+                stack.push((mask | (1 << i), s2, l2));
+            }
+        }
+    }
+    false
+}
+
+/// Many short histories of set / reset / is_set / single polls / blocking waits on 3-4 threads, each checked for
+/// linearizability against the sequential manual reset event (with the latch: a wait completes iff the event was
+/// set at some instant since its first poll). A final set() by the last thread releases every blocking wait.
+pub fn wl_event_lin<M: RawMutex + Send + Sync + 'static>(seed: u64, n: usize, ctx: &mut Ctx, st: &mut ConcStats) -> Option<Violation> {
+    let n = n.clamp(3, 4);
+    let mut r0 = Rng::new(seed ^ 0xE7E7);
+    let initial = r0.below(2) == 0;
+    let ev: GenericManualResetEvent<M> = GenericManualResetEvent::new(initial);
+    let run = Run::new(n);
+    let points = std::sync::Mutex::new(Vec::<LinEv>::new());
+    let skipped = std::sync::Mutex::new(Vec::<String>::new());
+    let waits = AtomicU64::new(0);
+    let others_left = AtomicU64::new((n - 1) as u64);
+    let mut logs: Vec<Vec<LogEv>> = vec![];
+    let mut verdict = Verdict::Finished;
+    std::thread::scope(|s| {
+        let mut hs = vec![];
+        for i in 0..n {
+            let (ev, points, skipped, waits, others_left, run) = (&ev, &points, &skipped, &waits, &others_left, run.clone());
+            hs.push(s.spawn(move || {
+                enter_worker(&run, i, seed ^ (i as u64 + 1).wrapping_mul(0x9E37_79B9));
+                let mut rng = Rng::new(seed.wrapping_mul(71).wrapping_add(i as u64));
+                let mut lg: Vec<LogEv> = Vec::with_capacity(8);
+                let mut mine: Vec<LinEv> = Vec::with_capacity(8);
+                let ops = 2 + rng.below(2);
+                for _ in 0..ops {
+                    if run.abort.load(Relaxed) {
+                        break;
+                    }
+                    // (thread 0 has the last word: it never blocks itself)
+                    match rng.below(if i == 0 { 5 } else { 7 }) {
+                        0 | 1 => {
+                            let c = run.now();
+                            ev.set();
+                            mine.push(LinEv { lo: c, hi: run.now(), kind: 0, arg: 0, w: 0 });
+                        }
+                        2 => {
+                            let c = run.now();
+                            ev.reset();
+                            mine.push(LinEv { lo: c, hi: run.now(), kind: 1, arg: 0, w: 0 });
+                        }
+                        3 => {
+                            let c = run.now();
+                            let v = ev.is_set();
+                            mine.push(LinEv { lo: c, hi: run.now(), kind: 2, arg: v as u64, w: 0 });
+                        }
+                        4 => {
+                            // one poll of a fresh future, dropped at once if Pending
+                            let o = drive(&run, i, ev.wait(), Drive::Once, 1);
+                            let c = &run.tasks[i];
+                            mine.push(LinEv { lo: c.t_first_call.load(Relaxed), hi: if matches!(o, Outcome::Ready(_)) { c.t_end_ret.load(Relaxed) } else { c.t_reg_ret.load(Relaxed) }, kind: 3, arg: matches!(o, Outcome::Ready(_)) as u64, w: 0 });
+                        }
+                        _ => {
+                            let w = waits.fetch_add(1, Relaxed) as u8;
+                            let how = if rng.below(2) == 0 { Drive::Repoll(1) } else { Drive::Block };
+                            let o = drive(&run, i, ev.wait(), how, 1);
+                            let c = &run.tasks[i];
+                            if let Outcome::Ready(()) = o {
+                                let reg = c.t_reg_ret.load(Relaxed);
+                                if reg == 0 {
+                                    // completed at its first poll: the event was set at that instant
+                                    mine.push(LinEv { lo: c.t_first_call.load(Relaxed), hi: c.t_end_ret.load(Relaxed), kind: 3, arg: 1, w: 0 });
+                                } else {
+                                    mine.push(LinEv { lo: c.t_first_call.load(Relaxed), hi: reg, kind: 4, arg: 0, w });
+                                    mine.push(LinEv { lo: reg, hi: c.t_end_ret.load(Relaxed), kind: 5, arg: 0, w });
+                                }
+                            }
+                        }
+                    }
+                    run.ops.fetch_add(1, Relaxed);
+                }
+                if i == 0 {
+                    // the last word: once everybody else is done or parked for good, a final set() (part of the history)
+                    // Logical rule for a waiter that set() skipped (as for the timer): parked with a clear token in
+                    // one park epoch from before the call to after its return, three calls in a row.
+                    let mut strikes = vec![0u32; run.tasks.len()];
+                    let mut sets = 0;
+                    while others_left.load(Acquire) > 0 && !run.abort.load(Relaxed) {
+                        let mut cand: Vec<(usize, u64)> = vec![];
+                        let mut all_quiet = true;
+                        for w in 1..run.tasks.len() {
+                            let c = &run.tasks[w];
+                            let clear = !c.token.load(std::sync::atomic::Ordering::SeqCst);
+                            let ep = c.epoch.load(std::sync::atomic::Ordering::SeqCst);
+                            let stt = c.state.load(std::sync::atomic::Ordering::SeqCst);
+                            if stt == PARKED && clear && ep % 2 == 1 && c.epoch.load(std::sync::atomic::Ordering::SeqCst) == ep {
+                                cand.push((w, ep));
+                            } else {
+                                strikes[w] = 0;
+                                if stt != DONE {
+                                    all_quiet = false;
+                                }
+                            }
+                        }
+                        if all_quiet && !cand.is_empty() && sets < 8 {
+                            sets += 1;
+                            let c = run.now();
+                            ev.set();
+                            mine.push(LinEv { lo: c, hi: run.now(), kind: 0, arg: 0, w: 0 });
+                            for (w, ep) in cand {
+                                let c = &run.tasks[w];
+                                let clear = !c.token.load(std::sync::atomic::Ordering::SeqCst);
+                                if clear && c.epoch.load(std::sync::atomic::Ordering::SeqCst) == ep {
+                                    strikes[w] += 1;
+                                    if strikes[w] >= 3 {
+                                        skipped.lock().unwrap().push(format!("task {} is parked in wait() with no wake-up through the waker of its latest poll although 3 set() calls began and returned while it was parked", w));
+                                        abort_all(&run);
+                                    }
+                                } else {
+                                    strikes[w] = 0;
+                                }
+                            }
+                        }
+                        std::thread::yield_now();
+                    }
+                } else {
+                    others_left.fetch_sub(1, AcqRel);
+                }
+                points.lock().unwrap().extend(mine);
+                leave_worker(&run, i);
+                let _ = &mut lg;
+                lg
+            }));
+        }
+        verdict = supervise(&run, wall_limit());
+        if verdict != Verdict::Finished {
+            abort_all(&run);
+        }
+        for h in hs {
+            logs.push(joined(h));
+        }
+    });
+    st.absorb(&run, &logs);
+    queues_empty(ctx, "event", &mut |v| ev.verif_inspect(v));
+    let mut pts = points.lock().unwrap().clone();
+    // the observer's last look, after every thread is gone
+    let c = run.now();
+    let v = ev.is_set();
+    pts.push(LinEv { lo: c, hi: run.now(), kind: 2, arg: v as u64, w: 0 });
+    let sk = skipped.lock().unwrap().clone();
+    ctx.check("C14", "set-wakes-every-parked-waiter", true, sk.is_empty(), || sk.join(" | "));
+    if !sk.is_empty() {
+        return take_fail(ctx, &logs, &["-"]);
+    }
+    if verdict == Verdict::Finished && pts.len() <= 20 {
+        let ok = event_history_linearizable(&pts, initial);
+        ctx.check("C14", "short-history-is-linearizable-against-the-latching-event", true, ok, || {
+            let mut p = pts.clone();
+            p.sort_by_key(|e| e.lo);
+            format!("no linearization of (initially set: {}) {:?} (kind 0 set, 1 reset, 2 is_set->arg, 3 single poll->arg, 4 wait opened, 5 wait completed)", initial, p)
+        });
+    } else if verdict == Verdict::AllParked {
+        st.deadlock_checks += 1;
+        ctx.check("C14", "final-set-releases-every-waiter", true, false, || "a set() returned after every waiter was parked, and waiters are still parked with clear tokens".into());
+    } else if verdict == Verdict::Watchdog {
+        st.watchdogs += 1;
+        return Some(Violation { prop: "harness", pred: "watchdog", detail: "wall clock watchdog".into(), log: String::new() });
+    }
+    take_fail(ctx, &logs, &["-"])
 }
 
 // ------------------------------------------------------------------ event (C14)
@@ -2238,6 +2483,13 @@ fn run_workload_inner(name: &str, seed: u64, ctx: &mut Ctx, st: &mut ConcStats) 
                 2 => wl_mpmc::<Spin, ArrayBuf<u64, [u64; 2]>>(seed, p, c, per, 2, shared, ctx, st),
                 3 => wl_mpmc::<Pl, futures_intrusive::buffer::GrowingHeapBuf<u64>>(seed, p, c, per, rng.below(3), shared, ctx, st),
                 _ => wl_mpmc::<Pl, FixedHeapBuf<u64>>(seed, p, c, per, 2, shared, ctx, st),
+            }
+        }
+        "event" if rng.below(2) == 0 => {
+            if spin {
+                wl_event_lin::<Spin>(seed, n, ctx, st)
+            } else {
+                wl_event_lin::<Pl>(seed, n, ctx, st)
             }
         }
         "event" if spin => wl_event::<Spin>(seed, n, rounds.max(6), ctx, st),
